@@ -62,6 +62,11 @@ func lambdaSpecials() []*big.Int {
 		}
 	}
 
+	// ... or a constant of the field arithmetic with its limbs / bytes in another order
+	for _, x := range ConfusableStored(p) {
+		out = append(out, oracle.FromMont(oracle.Limbs(x), p))
+	}
+
 	// stored form adjacent to the Montgomery form of 1 (R mod p = {0x1000003d1,0,0,0}): equal to it in three limbs. This
 	// is what an "is z == 1" fast path that drops or duplicates a limb confuses with 1.
 	oneM := oracle.ToMont(big.NewInt(1), p)
